@@ -1,0 +1,11 @@
+//go:build verif
+
+package radixdb
+
+// Accessors for the verification harness (/verif). Built only with -tags verif.
+
+// VerifToIndexKey exposes the key -> radix index key encoding.
+func VerifToIndexKey(key []byte) []byte { return toIndexKey(key) }
+
+// VerifFromIndexKey exposes the radix index key -> key decoding.
+func VerifFromIndexKey(ik []byte) []byte { return extractFromIndexKey(ik) }
